@@ -430,3 +430,8 @@ mod tests {
         Ok(())
     }
 }
+
+#[cfg(rustradio_verif)]
+pub mod verif_access {
+    include!(concat!(env!("RUSTRADIO_VERIF_DIR"), "/access/hdlc_deframer.rs"));
+}
